@@ -99,7 +99,35 @@ func GenDerived(t *rapid.T, base Table, maxSteps int) Derived {
 	}
 	for s := 0; s < steps; s++ {
 		d.Siblings = append(d.Siblings, qf)
-		switch rapid.IntRange(0, 6).Draw(t, "step") {
+		switch rapid.IntRange(0, 8).Draw(t, "step") {
+		case 7: // a data column rebuilt by an identity function through Apply (same cells, storage assembled by Apply)
+			if len(base.Cols) == 0 {
+				continue
+			}
+			c := base.Cols[rapid.IntRange(0, len(base.Cols)-1).Draw(t, "rebuildcol")]
+			var fn interface{}
+			switch c.Kind {
+			case KInt:
+				fn = func(x int) int { return x }
+			case KFloat:
+				fn = func(x float64) float64 { return x }
+			case KBool:
+				fn = func(x bool) bool { return x }
+			case KString:
+				fn = func(x *string) *string { return x }
+			default:
+				continue // an enum column would come back as a string column
+			}
+			// (rows the index no longer holds get the zero value in the rebuilt column; they never come back)
+			qf = qf.Apply(qframe.Instruction{Fn: fn, DstCol: c.Name, SrcCol1: c.Name})
+			d.Route = append(d.Route, "rebuild("+c.Name+")")
+		case 8: // a data column moved to the end by Copy/Drop (the final Select restores the order)
+			if len(base.Cols) == 0 {
+				continue
+			}
+			c := base.Cols[rapid.IntRange(0, len(base.Cols)-1).Draw(t, "movecol")]
+			qf = qf.Copy("zzmove", c.Name).Drop(c.Name).Copy(c.Name, "zzmove").Drop("zzmove")
+			d.Route = append(d.Route, "move("+c.Name+")")
 		case 0, 1: // Sort on the unique rank
 			rev := rapid.Bool().Draw(t, "rev")
 			qf = qf.Sort(qframe.Order{Column: HelperRank, Reverse: rev})
